@@ -28,6 +28,17 @@ Ltac gen44 m :=
   generalize dependent (nth 8 m (o0 ROps)); generalize dependent (nth 9 m (o0 ROps));
   generalize dependent (nth 10 m (o0 ROps)); generalize dependent (nth 11 m (o0 ROps)).
 
+Ltac name33 m :=
+  set (a0 := nth 0 m (o0 ROps)) in *; set (a1 := nth 1 m (o0 ROps)) in *; set (a2 := nth 2 m (o0 ROps)) in *;
+  set (a3 := nth 3 m (o0 ROps)) in *; set (a4 := nth 4 m (o0 ROps)) in *; set (a5 := nth 5 m (o0 ROps)) in *;
+  clearbody a0 a1 a2 a3 a4 a5.
+Ltac name44 m :=
+  set (a0 := nth 0 m (o0 ROps)) in *; set (a1 := nth 1 m (o0 ROps)) in *; set (a2 := nth 2 m (o0 ROps)) in *;
+  set (a3 := nth 3 m (o0 ROps)) in *; set (a4 := nth 4 m (o0 ROps)) in *; set (a5 := nth 5 m (o0 ROps)) in *;
+  set (a6 := nth 6 m (o0 ROps)) in *; set (a7 := nth 7 m (o0 ROps)) in *; set (a8 := nth 8 m (o0 ROps)) in *;
+  set (a9 := nth 9 m (o0 ROps)) in *; set (a10 := nth 10 m (o0 ROps)) in *; set (a11 := nth 11 m (o0 ROps)) in *;
+  clearbody a0 a1 a2 a3 a4 a5 a6 a7 a8 a9 a10 a11.
+
 (* ------------------------------------------------------------ inverse_correct *)
 Lemma inverse33_correct_r (m : RM) (p : RV2) : affine33 m -> @m33_determinant ROps m <> 0 ->
   @m33_mulposition ROps m (@m33_mulposition ROps (@m33_inverse ROps m) p) = p.
@@ -118,4 +129,94 @@ Theorem transform3_enc s (m : RM) o : affine44 m -> @m44_determinant ROps m <> 0
 Proof.
   intros Ha Hd H [Ho Hs]. injection H as <-. split; cbn [bb3 ev3]; [apply mulbox44_ordered|].
   intros p Hp. rewrite <- (inverse44_correct_r m p Ha Hd). apply mulbox44_hull, Hs, Hp.
+Qed.
+
+(* ------------------------------------------------------------ translations: every class *)
+Lemma translate2_inv (v p : RV2) :
+  @m33_mulposition ROps (@m33_inverse ROps (@mk_translate2d ROps v)) p = mkV2 (vx p - vx v) (vy p - vy v).
+Proof. unfold m33_mulposition, m33_inverse, m33_determinant, mk_translate2d; cbn. f_equal; field. Qed.
+Lemma translate3_inv (v p : RV3) :
+  @m44_mulposition ROps (@m44_inverse ROps (@mk_translate3d ROps v)) p = mkV3 (wx p - wx v) (wy p - wy v) (wz p - wz v).
+Proof. unfold m44_mulposition, m44_inverse, m44_determinant, mk_translate3d; cbn. f_equal; field. Qed.
+Lemma translate2_box (v : RV2) b : ordered2 b -> m33_mulbox (@mk_translate2d ROps v) b = box2_translate b v.
+Proof.
+  intros [Hx Hy]. unfold m33_mulbox, box2_translate, mk_translate2d, v2add, v2min, v2max, v2muls, mi; cbn.
+  f_equal; f_equal; unfold Rmin, Rmax; repeat destruct (Rle_dec _ _); lra.
+Qed.
+Lemma translate3_box (v : RV3) b : ordered3 b -> m44_mulbox (@mk_translate3d ROps v) b = box3_translate b v.
+Proof.
+  intros (Hx & Hy & Hz). unfold m44_mulbox, box3_translate, mk_translate3d, v3add, v3min, v3max, v3muls, mi; cbn.
+  f_equal; f_equal; unfold Rmin, Rmax; repeat destruct (Rle_dec _ _); lra.
+Qed.
+
+Lemma transform2_translate_cls D (v : RV2) s o : Dtrans2 D ->
+  @k_transform2 ROps s (@mk_translate2d ROps v) = Some o -> cls2 D s -> cls2 D o.
+Proof.
+  intros DT H [Ho Hs]. apply some_inj in H. rewrite <- H. clear H. rewrite (translate2_box v _ Ho).
+  split; cbn [bb2 ev2].
+  - unfold ordered2 in *; cbn. lra.
+  - intros p. rewrite translate2_inv, DT. destruct (Hs (mkV2 (vx p - vx v) (vy p - vy v))) as [Hd|Hin]; [now left | right].
+    revert Hin. unfold in_box2; cbn. lra.
+Qed.
+Lemma transform3_translate_cls D (v : RV3) s o : Dtrans3 D ->
+  @k_transform3 ROps s (@mk_translate3d ROps v) = Some o -> cls3 D s -> cls3 D o.
+Proof.
+  intros DT H [Ho Hs]. apply some_inj in H. rewrite <- H. clear H. rewrite (translate3_box v _ Ho).
+  split; cbn [bb3 ev3].
+  - unfold ordered3 in *; cbn. lra.
+  - intros p. rewrite translate3_inv, DT.
+    destruct (Hs (mkV3 (wx p - wx v) (wy p - wy v) (wz p - wz v))) as [Hd|Hin]; [now left | right].
+    revert Hin. unfold in_box3; cbn. lra.
+Qed.
+
+(* ------------------------------------------------------------ rigid motions: the Euclidean class lb2 *)
+Definition rigid33 (m : RM) : Prop :=
+  affine33 m /\
+  nth 0 m (o0 ROps) * nth 0 m (o0 ROps) + nth 3 m (o0 ROps) * nth 3 m (o0 ROps) = 1 /\
+  nth 1 m (o0 ROps) * nth 1 m (o0 ROps) + nth 4 m (o0 ROps) * nth 4 m (o0 ROps) = 1 /\
+  nth 0 m (o0 ROps) * nth 1 m (o0 ROps) + nth 3 m (o0 ROps) * nth 4 m (o0 ROps) = 0.
+Definition rigid44 (m : RM) : Prop :=
+  affine44 m /\
+  nth 0 m (o0 ROps) * nth 0 m (o0 ROps) + nth 4 m (o0 ROps) * nth 4 m (o0 ROps) + nth 8 m (o0 ROps) * nth 8 m (o0 ROps) = 1 /\
+  nth 1 m (o0 ROps) * nth 1 m (o0 ROps) + nth 5 m (o0 ROps) * nth 5 m (o0 ROps) + nth 9 m (o0 ROps) * nth 9 m (o0 ROps) = 1 /\
+  nth 2 m (o0 ROps) * nth 2 m (o0 ROps) + nth 6 m (o0 ROps) * nth 6 m (o0 ROps) + nth 10 m (o0 ROps) * nth 10 m (o0 ROps) = 1 /\
+  nth 0 m (o0 ROps) * nth 1 m (o0 ROps) + nth 4 m (o0 ROps) * nth 5 m (o0 ROps) + nth 8 m (o0 ROps) * nth 9 m (o0 ROps) = 0 /\
+  nth 0 m (o0 ROps) * nth 2 m (o0 ROps) + nth 4 m (o0 ROps) * nth 6 m (o0 ROps) + nth 8 m (o0 ROps) * nth 10 m (o0 ROps) = 0 /\
+  nth 1 m (o0 ROps) * nth 2 m (o0 ROps) + nth 5 m (o0 ROps) * nth 6 m (o0 ROps) + nth 9 m (o0 ROps) * nth 10 m (o0 ROps) = 0.
+
+Lemma rigid33_det (m : RM) : rigid33 m -> @m33_determinant ROps m <> 0.
+Proof.
+  intros ((H6 & H7 & H8) & A & B & C). unfold m33_determinant. rewrite H6, H7, H8. name33 m. ropen. intros E.
+  assert (D : (a0 * a4 - a1 * a3) * (a0 * a4 - a1 * a3) = (a0 * a0 + a3 * a3) * (a1 * a1 + a4 * a4) - (a0 * a1 + a3 * a4) * (a0 * a1 + a3 * a4)) by ring.
+  rewrite A, B, C in D. assert (a0 * a4 - a1 * a3 = 0) by lra. rewrite H in D. lra.
+Qed.
+Lemma rigid33_iso (m : RM) p q : rigid33 m -> dist2 (@m33_mulposition ROps m p) (@m33_mulposition ROps m q) = dist2 p q.
+Proof.
+  intros (_ & A & B & C). unfold dist2, len2, sub2, m33_mulposition; cbn [vx vy]. f_equal. name33 m. ropen.
+  transitivity ((a0 * a0 + a3 * a3) * ((vx p - vx q) * (vx p - vx q)) + (a1 * a1 + a4 * a4) * ((vy p - vy q) * (vy p - vy q))
+                + 2 * (a0 * a1 + a3 * a4) * ((vx p - vx q) * (vy p - vy q))); [ring|]. rewrite A, B, C. ring.
+Qed.
+
+Lemma axd_attained lo hi x : lo <= hi -> exists c, lo <= c <= hi /\ (x - c) * (x - c) = axd lo hi x * axd lo hi x.
+Proof.
+  intros H. unfold axd, Rmax.
+  destruct (Rle_dec (lo - x) (x - hi)); destruct (Rle_dec 0 _);
+    first [ exists hi; split; [lra | ring] | exists lo; split; [lra | ring] | exists x; split; [lra | ring] ].
+Qed.
+Lemma boxdist2_attained b p : ordered2 b -> exists c, in_box2 b c /\ dist2 p c = boxdist2 b p.
+Proof.
+  intros [Hx Hy]. destruct (axd_attained _ _ (vx p) Hx) as (cx & Ix & Ex). destruct (axd_attained _ _ (vy p) Hy) as (cy & Iy & Ey).
+  exists (mkV2 cx cy). split; [split; assumption|]. unfold dist2, len2, sub2, boxdist2; cbn [vx vy]. rewrite Ex, Ey. reflexivity.
+Qed.
+
+Theorem transform2_rigid_lb2 s (m : RM) o : rigid33 m -> @k_transform2 ROps s m = Some o -> lb2_2 s -> lb2_2 o.
+Proof.
+  intros Hm H [Ho Hs]. pose proof (rigid33_det m Hm) as Hd. destruct Hm as [Ha Hm']. pose proof (conj Ha Hm' : rigid33 m) as Hm.
+  apply some_inj in H. rewrite <- H. clear H. split; cbn [bb2 ev2]; [apply mulbox33_ordered|].
+  intros p. set (q0 := @m33_mulposition ROps (@m33_inverse ROps m) p).
+  assert (Ep : @m33_mulposition ROps m q0 = p) by (apply inverse33_correct_r; assumption).
+  destruct (Hs q0) as [Hdist|Hin]; [left | right; rewrite <- Ep; apply mulbox33_hull, Hin].
+  destruct (boxdist2_attained (bb2 s) q0 Ho) as (c & Ic & Ec).
+  pose proof (boxdist2_le_dist (m33_mulbox m (bb2 s)) p _ (mulbox33_hull m _ _ Ic)) as L.
+  rewrite <- Ep in L at 2. rewrite rigid33_iso in L by exact Hm. rewrite <- Ep at 1. rewrite Ep. lra.
 Qed.
